@@ -1,5 +1,119 @@
-/- Engine `param` (C14): not built yet. -/
+/-
+  Engine `param` (C14).  Op line (see harness/param.cpp):
+    <R|N> <id> <kind> <storage> <len> <pattern-hex> <meta-hex> <init-state> <msg>...
+    msg = [<digits>@]<arg>[+<arg>...]   arg = q | i<dec> | c<dec> | f<hex8> | T | F | s<hex> | S<hex>
+  Output: one token `<matches>;<events>;<state>` per message, then `X=ok`
+  (the model's callbacks have no access to anything but the port's own field).
+-/
+import RtoscModel.Param.Port
 import Driver.Common
 namespace Driver.ParamEngine
-def engine : Driver.Engine := Driver.stateless (fun _ => "unimplemented")
+open Rtosc Rtosc.Param
+
+def hexNat (s : String) : Option Nat :=
+  s.toList.foldl (fun acc c => do
+    let a ← acc
+    let d ← hexVal c
+    pure (a * 16 + d)) (some 0)
+
+def hex32 (b : UInt32) : String :=
+  let ds := Nat.toDigits 16 b.toNat
+  String.ofList (List.replicate (8 - ds.length) '0' ++ ds)
+
+def parseInt (s : String) : Option Int := s.toInt?
+
+def parseKind : String → Option Kind
+  | "P" => some .param | "F" => some .paramF | "I" => some .paramI | "O" => some .option
+  | "T" => some .toggle | "S" => some .string | "f" => some .arrayF | "t" => some .arrayT
+  | "i" => some .arrayI | "o" => some .arrayOption | _ => none
+
+def parseTy : String → IntTy
+  | "i8" => .i8 | "u8" => .u8 | "i16" => .i16 | _ => .i32
+
+def allSome {α} : List (Option α) → Option (List α)
+  | [] => some []
+  | none :: _ => none
+  | some a :: r => (allSome r).map (a :: ·)
+
+def parseState (storage : String) (s : String) : Option Field :=
+  if storage = "s" then (ofHex s).map Field.str
+  else
+    let parts := s.splitOn ","
+    if storage = "f32" then
+      (allSome (parts.map fun p => (hexNat p).map UInt32.ofNat)).map Field.flts
+    else if storage = "b" then
+      (allSome (parts.map fun p => if p = "1" then some true else if p = "0" then some false else none)).map Field.bools
+    else (allSome (parts.map parseInt)).map Field.ints
+
+def showState : Field → String
+  | .ints xs => ",".intercalate (xs.map toString)
+  | .flts xs => ",".intercalate (xs.map hex32)
+  | .bools xs => ",".intercalate (xs.map fun b => if b then "1" else "0")
+  | .str b => toHex b
+
+def parseArg (a : String) : Option Arg :=
+  match a.toList with
+  | ['T'] => some .T
+  | ['F'] => some .F
+  | 'i' :: r => (parseInt (String.ofList r)).map Arg.i
+  | 'c' :: r => (parseInt (String.ofList r)).map Arg.c
+  | 'f' :: r => (hexNat (String.ofList r)).map fun n => Arg.f (UInt32.ofNat n)
+  | 's' :: r => (ofHex (String.ofList r)).map Arg.s
+  | 'S' :: r => (ofHex (String.ofList r)).map Arg.S
+  | _ => none
+
+/-- message token → (index text, arguments) -/
+def parseMsg (tok : String) : Option (Bytes × List Arg) :=
+  let (idx, rest) : String × String :=
+    match tok.splitOn "@" with
+    | [i, r] => (i, r)
+    | _ => ("", tok)
+  if rest = "q" then some (idx.toUTF8.toList, [])
+  else (allSome ((rest.splitOn "+").map parseArg)).map fun as => (idx.toUTF8.toList, as)
+
+def showArgVal : Arg → String
+  | .i v => ":" ++ toString v
+  | .c v => ":" ++ toString v
+  | .f b => ":" ++ hex32 b
+  | .s x => ":" ++ toHex x
+  | .S x => ":" ++ toHex x
+  | .T => ""
+  | .F => ""
+
+def showEvent (e : Event) : String :=
+  let tags := String.ofList (e.args.map fun a => Char.ofNat a.tag.toNat)
+  (if e.bcast then "B:" else "R:") ++ toHex e.addr ++ ":" ++ (if tags.isEmpty then "-" else tags)
+    ++ String.join (e.args.map showArgVal)
+
+def showEvents (es : List Event) : String :=
+  if es.isEmpty then "-" else ",".intercalate (es.map showEvent)
+
+def showErr : Err → String
+  | .oob => "oob"
+  | .unsup => "unsup"
+
+def runMsgs (p : Port) (pfx name : Bytes) : Field → List String → List String
+  | _, [] => ["X=ok"]
+  | fld, tok :: rest =>
+    match parseMsg tok with
+    | none => "bad-msg" :: runMsgs p pfx name fld rest
+    | some (idx, args) =>
+      match dispatch p pfx (name ++ idx) fld args with
+      | .error e => [s!"err:{showErr e}"]
+      | .ok none => s!"0;-;{showState fld}" :: runMsgs p pfx name fld rest
+      | .ok (some (fld', ev)) => s!"1;{showEvents ev};{showState fld'}" :: runMsgs p pfx name fld' rest
+
+def step (line : String) : String :=
+  match words line with
+  | mode :: id :: kind :: storage :: len :: pat :: blk :: init :: msgs =>
+    match parseKind kind, len.toNat?, ofHex pat, ofHex blk, parseState storage init with
+    | some k, some n, some pattern, some block, some fld =>
+      if mode ≠ "R" ∧ mode ≠ "N" then "bad-op" else
+      let p : Port := ⟨k, parseTy storage, n, pattern, block⟩
+      let pfx : Bytes := if mode = "N" then "/sub/".toUTF8.toList else "/".toUTF8.toList
+      " ".intercalate (runMsgs p pfx id.toUTF8.toList fld msgs)
+    | _, _, _, _, _ => "bad-op"
+  | _ => "bad-op"
+
+def engine : Driver.Engine := Driver.stateless step
 end Driver.ParamEngine
